@@ -7,6 +7,7 @@ import (
 	"errors"
 	"fmt"
 	"io"
+	"math"
 	"math/rand"
 	"slices"
 )
@@ -228,6 +229,11 @@ const minFieldLen = 4
 
 // Read implements the io.Reader interface for Transaction
 func (t *Transaction) Read(p []byte) (int, error) {
+	// The field count has 16 bits: fields beyond the 65,535th cannot be announced and are left out.
+	if len(t.Fields) > math.MaxUint16 {
+		t.Fields = t.Fields[:math.MaxUint16]
+	}
+
 	payloadSize := t.Size()
 
 	fieldCount := make([]byte, 2)
